@@ -223,5 +223,13 @@ def setupWriterProcessor(root_service, settings):
   writer_service.setServiceParent(root_service)
 
   if settings.USE_FLOW_CONTROL:
+    from twisted.internet import reactor
+
+    def resumeReceivingMetrics():
+      # cacheSpaceAvailable is fired by the writer thread (MetricCache.pop).
+      # Receiver connections and their transports belong to the reactor
+      # thread, so hand the resume over instead of racing with it.
+      reactor.callFromThread(events.resumeReceivingMetrics)
+
     events.cacheFull.addHandler(events.pauseReceivingMetrics)
-    events.cacheSpaceAvailable.addHandler(events.resumeReceivingMetrics)
+    events.cacheSpaceAvailable.addHandler(resumeReceivingMetrics)
